@@ -509,6 +509,10 @@ theorem tree_ex {s : PState} {f : ObjectTree → Res ObjectTree} {t' : ObjectTre
   unfold tree
   simp only [e, bind, Except.bind, pure, Except.pure]
 
+/-- the opcodes whose objects carry an invariant of their own (`Method`: flags argument, `Scope`: shape of the
+directive): no payload step turns an object into one of them or out of one of them -/
+def isK (op : Nat) : Bool := op == opMethod || op == opScope || op == opIntScopeBlock
+
 /-- a step that changes only the reader (forward, same `pkgEnd`) and the payload of slot `obj` -/
 structure PayOnly (obj : Nat) (s s' : PState) : Prop where
   links : SameLinks s.tree s'.tree
@@ -518,8 +522,44 @@ structure PayOnly (obj : Nat) (s s' : PState) : Prop where
   same : s'.allBlocks = s.allBlocks ∧ s'.tableHandle = s.tableHandle ∧ s'.streamEnd = s.streamEnd
   pkgEnd : s'.r.pkgEnd = s.r.pkgEnd
   off : s.r.offset ≤ s'.r.offset
-  /-- `obj` neither becomes nor stops being a `Method` -/
-  mth : (slot s'.tree obj).opcode = opMethod ↔ (slot s.tree obj).opcode = opMethod
+  /-- `obj` keeps its opcode, or goes from one opcode outside of `isK` to another -/
+  opc : (slot s'.tree obj).opcode = (slot s.tree obj).opcode ∨
+    (isK (slot s.tree obj).opcode = false ∧ isK (slot s'.tree obj).opcode = false)
+  /-- a `Method` / `Scope` / scope block keeps its name and its table handle -/
+  nmk : isK (slot s.tree obj).opcode = true → (slot s'.tree obj).name = (slot s.tree obj).name ∧
+    (slot s'.tree obj).tableHandle = (slot s.tree obj).tableHandle
+
+theorem isK_method : isK opMethod = true := by decide
+theorem isK_scope : isK opScope = true := by decide
+theorem isK_block : isK opIntScopeBlock = true := by decide
+
+/-- `obj` neither becomes nor stops being a `Method` -/
+theorem PayOnly.mth {obj : Nat} {s s' : PState} (h : PayOnly obj s s') :
+    (slot s'.tree obj).opcode = opMethod ↔ (slot s.tree obj).opcode = opMethod := by
+  rcases h.opc with e | ⟨e1, e2⟩
+  · rw [e]
+  · constructor
+    · intro hq; rw [hq, isK_method] at e2; cases e2
+    · intro hq; rw [hq, isK_method] at e1; cases e1
+
+/-- `obj` neither becomes nor stops being a `Scope` -/
+theorem PayOnly.scp {obj : Nat} {s s' : PState} (h : PayOnly obj s s') :
+    (slot s'.tree obj).opcode = opScope ↔ (slot s.tree obj).opcode = opScope := by
+  rcases h.opc with e | ⟨e1, e2⟩
+  · rw [e]
+  · constructor
+    · intro hq; rw [hq, isK_scope] at e2; cases e2
+    · intro hq; rw [hq, isK_scope] at e1; cases e1
+
+theorem PayOnly.notK {obj : Nat} {s s' : PState} (h : PayOnly obj s s') (hk : isK (slot s.tree obj).opcode = false) :
+    isK (slot s'.tree obj).opcode = false := by
+  rcases h.opc with e | ⟨_, e2⟩
+  · rw [e]; exact hk
+  · exact e2
+
+/-- a `Method` keeps its name -/
+theorem PayOnly.nm {obj : Nat} {s s' : PState} (h : PayOnly obj s s') (ho : (slot s.tree obj).opcode = opMethod) :
+    (slot s'.tree obj).name = (slot s.tree obj).name := (h.nmk (by rw [ho]; exact isK_method)).1
 
 theorem SameLinks.refl (t : ObjectTree) : SameLinks t t :=
   ⟨rfl, rfl, fun _ => rfl, fun _ => rfl, fun _ => rfl, fun _ => rfl, fun _ => rfl, fun _ => rfl, fun _ => rfl⟩
@@ -530,32 +570,52 @@ theorem SameLinks.trans {a b c : ObjectTree} (h1 : SameLinks a b) (h2 : SameLink
    fun x => by rw [h2.live, h1.live], fun x => by rw [h2.index, h1.index]⟩
 
 theorem PayOnly.refl (obj : Nat) (s : PState) : PayOnly obj s s :=
-  ⟨SameLinks.refl _, fun _ _ => rfl, rfl, rfl, ⟨rfl, rfl, rfl⟩, rfl, Nat.le_refl _, Iff.rfl⟩
+  ⟨SameLinks.refl _, fun _ _ => rfl, rfl, rfl, ⟨rfl, rfl, rfl⟩, rfl, Nat.le_refl _, Or.inl rfl, fun _ => ⟨rfl, rfl⟩⟩
 
 theorem PayOnly.trans {obj : Nat} {a b c : PState} (h1 : PayOnly obj a b) (h2 : PayOnly obj b c) : PayOnly obj a c :=
   ⟨h1.links.trans h2.links, fun x hx => by rw [h2.others x hx, h1.others x hx], by rw [h2.scope, h1.scope],
    by rw [h2.pkg, h1.pkg], ⟨by rw [h2.same.1, h1.same.1], by rw [h2.same.2.1, h1.same.2.1], by rw [h2.same.2.2, h1.same.2.2]⟩,
-   by rw [h2.pkgEnd, h1.pkgEnd], Nat.le_trans h1.off h2.off, h2.mth.trans h1.mth⟩
+   by rw [h2.pkgEnd, h1.pkgEnd], Nat.le_trans h1.off h2.off, by
+     rcases h1.opc with e1 | ⟨a1, b1⟩
+     · rcases h2.opc with e2 | ⟨a2, b2⟩
+       · exact Or.inl (by rw [e2, e1])
+       · exact Or.inr ⟨by rw [← e1]; exact a2, b2⟩
+     · exact Or.inr ⟨a1, h2.notK b1⟩,
+   fun hm => by
+     have hm1 : isK (slot b.tree obj).opcode = true := by
+       rcases h1.opc with e1 | ⟨a1, _⟩
+       · rw [e1]; exact hm
+       · rw [a1] at hm; cases hm
+     exact ⟨by rw [(h2.nmk hm1).1, (h1.nmk hm).1], by rw [(h2.nmk hm1).2, (h1.nmk hm).2]⟩⟩
 
 theorem PayOnly.ofR (obj : Nat) (s : PState) (r' : Reader) (hp : r'.pkgEnd = s.r.pkgEnd) (ho : s.r.offset ≤ r'.offset) :
     PayOnly obj s { s with r := r' } :=
-  ⟨SameLinks.refl _, fun _ _ => rfl, rfl, rfl, ⟨rfl, rfl, rfl⟩, hp, ho, Iff.rfl⟩
+  ⟨SameLinks.refl _, fun _ _ => rfl, rfl, rfl, ⟨rfl, rfl, rfl⟩, hp, ho, Or.inl rfl, fun _ => ⟨rfl, rfl⟩⟩
 
 theorem PayOnly.ofSetAt (obj : Nat) (s : PState) (f : Obj → Obj) (hf : KeepsLinks f) (hl : KeepsLive s.tree obj f)
-    (hm : (f (slot s.tree obj)).opcode = opMethod ↔ (slot s.tree obj).opcode = opMethod) :
+    (hm : (f (slot s.tree obj)).opcode = (slot s.tree obj).opcode ∨
+      (isK (slot s.tree obj).opcode = false ∧ isK (f (slot s.tree obj)).opcode = false))
+    (hn : isK (slot s.tree obj).opcode = true → (f (slot s.tree obj)).name = (slot s.tree obj).name ∧
+      (f (slot s.tree obj)).tableHandle = (slot s.tree obj).tableHandle) :
     PayOnly obj s { s with tree := setAt s.tree obj f } := by
-  refine ⟨sameLinks_setAt s.tree obj f hf hl, ?_, rfl, rfl, ⟨rfl, rfl, rfl⟩, rfl, Nat.le_refl _, ?_⟩
+  refine ⟨sameLinks_setAt s.tree obj f hf hl, ?_, rfl, rfl, ⟨rfl, rfl, rfl⟩, rfl, Nat.le_refl _, ?_, ?_⟩
   · intro x hx
     show slot (setAt s.tree obj f) x = slot s.tree x
     rw [slot_setAt']
     split
     · rename_i hc; exact absurd hc.1.symm hx
     · rfl
-  · show (slot (setAt s.tree obj f) obj).opcode = opMethod ↔ _
+  · show (slot (setAt s.tree obj f) obj).opcode = _ ∨ (_ ∧ isK (slot (setAt s.tree obj f) obj).opcode = false)
     rw [slot_setAt']
     split
     · exact hm
-    · exact Iff.rfl
+    · exact Or.inl rfl
+  · intro ho
+    show (slot (setAt s.tree obj f) obj).name = _ ∧ (slot (setAt s.tree obj f) obj).tableHandle = _
+    rw [slot_setAt']
+    split
+    · exact hn ho
+    · exact ⟨rfl, rfl⟩
 
 macro "keeps_links" : tactic => `(tactic| (intro o; exact ⟨rfl, rfl, rfl, rfl, rfl, rfl⟩))
 
